@@ -402,7 +402,8 @@ for _pid, _extra in RULE_EXTRA10.items():
 RULE_EXTRA11 = {
     "C01": "Scenario D: a row built on its own whose item is mutated between Row.Add and AddRow, attached to a table that has look-only add-time cell callbacks on the table and on the column: the cell still shows the text read at NewCell.",
     "C03": "Custom decorations may also be derived from a finished built-in (by name or constructor): some glyphs changed, up to eight fields emptied, then Populate (which must leave no field empty).",
-    "C10": "Between two renders of a kept wrapper the foreign pass may also be a one-shot package-level texttable.RenderTo or markdown.RenderTo of the same table; a quarter of the headings hold mutable items (changed in place, then Update on the header cell).",
+    "C07": "One script in five gets a near twin of one of its items in another cell (same descriptor; floating-point items with the sign turned, +0 and -0 included).",
+    "C10": "Between two renders of a kept wrapper the foreign pass may also be a one-shot package-level texttable.RenderTo or markdown.RenderTo of the same table; a quarter of the headings hold mutable items (changed in place, then Update on the header cell); near-twin items as in C07.",
     "C11": "Row error steps also call Row.AddError(nil), Row.AddErrorList with nil entries around and between one to three errors, and Row.AddErrorList(nil / empty), on rows before and after they join the table; macro 'ownrow' (row made on its own, told 0-2 times while detached, attached, told again); one registration in about six is a table-owned add-time callback that adds one more row to the same table (at most twice, never from within itself) before it reports its own error.",
     "C13": "Step 'copyattached': a by-value copy of a cell that already lives in an attached row is added to another (or the same) row, pending or attached - a new cell like any other for every add-time callback; in half of these a render callback is first registered on the original and another on the free-standing copy (each must fire on its own cell only, the copy also keeps what the original owned when it was copied).",
     "C15": "Job 'cross' has a fourth fixed table (columns skipable by their own setting and by the column-0 default, rows with empty cells in front, in the middle and at the end) and one table of about 1900 rows (past 32 KiB) under csv, html, json and markdown with a sample of 50 write indices.",
